@@ -269,17 +269,18 @@ def _validate_chunk(bench, mod, cfg, chunk, workdir, tag, max_rejections, timeou
             os.remove(path)
             break
         # find the run that contains the failing event
-        if res.violation == "postcondition" or res.printed:
+        # (when an invariant is violated TLC still evaluates the postcondition, whose message must then be ignored)
+        if res.violation and res.violation.startswith("Invariant"):
+            # the state that violates the invariant is the last of the printed counterexample
+            ls = [ln for ln in res.trace if ln.startswith("/\\ l = ")]
+            n = int(ls[-1].split("=")[1]) - 2 if ls else 0
+            reason = "invariant:" + res.violation.split()[1]
+        elif res.violation == "postcondition" or res.printed:
             if not res.printed:
                 raise ToolError("trace rejected without position:\n" + res.output[-2000:])
             m = res.printed[-1]
             n = int(m.split(",")[1].strip())
             reason = "unmatched"
-        elif res.violation and res.violation.startswith("Invariant"):
-            # the state that violates the invariant is the last of the printed counterexample
-            ls = [ln for ln in res.trace if ln.startswith("/\\ l = ")]
-            n = int(ls[-1].split("=")[1]) - 2 if ls else 0
-            reason = "invariant:" + res.violation.split()[1]
         else:
             raise ToolError("unexpected TLC outcome in trace validation: %s\n%s" % (res.violation, res.output[-3000:]))
         pos = 0
